@@ -69,6 +69,7 @@ def _direct(ctx, current, mon):
             try:
                 with numpy.errstate(all="ignore"):
                     obj = cls_(calc, (strains[:, a], strains[:, b]))
+                    obj._oracle_e = (strains[:, a].copy(), strains[:, b].copy())      # what was handed over, whatever the object keeps
                     adi = numpy.asarray(obj.value_adiabatic)
                     iso = numpy.asarray(obj.value_isothermal)
             except Exception as exc:
